@@ -157,12 +157,13 @@ func drawCase(t *rapid.T, o gen.DataOpts) *Case {
 }
 
 func prelude(t *testing.T, sizes []int) {
-	for _, n := range sizes {
+	for wi, n := range sizes {
 		spec := gen.DataSpec{Recipe: &gen.Recipe{N: n, Cols: []gen.ColSpec{
 			{Name: "a", Kind: gen.KMod, K: 3, Prefix: "v"},
 			{Name: "b", Kind: gen.KDiv, K: 2, Pres: gen.PModNot, P: 3}, // > n/2 distinct values
 			{Name: "c", Kind: gen.KMod, K: 1500, Prefix: "\xff"},
 			{Name: "u", Prefix: "r", Kind: gen.KUnique},
+			{Name: "len", Kind: gen.KLen, K: gen.LenWindows[wi%len(gen.LenWindows)], R: 40},
 		}}}
 		run(t, &Case{Data: spec, Reopens: []fix.OpenCfg{{CacheCap: -1}, {Preload: true, CacheCap: -1}, {CacheCap: 1 << 20}}})
 	}
